@@ -718,49 +718,70 @@ def periodic_wishlist(run: Run, found):
     from aioslsk.events import MessageReceivedEvent
     from aioslsk.protocol.messages import WishlistInterval
     for ival, nitems, rounds in [(5, 2, 4), (3, 1, 6), (7, 3, 3)]:
-        h = Harness()
-        try:
-            h.settings.searches.wishlist = [WishlistSettingEntry(query=f'w{i}', enabled=True) for i in range(nitems)]
-            h.atomic(h.bus.emit, MessageReceivedEvent(WishlistInterval.Response(ival), h.conn))
+        bad = periodic_one(ival, nitems, rounds)
+        run.case({'periodic': [ival, nitems, rounds]}, kind='periodic-wishlist')
+        if bad and 'periodic-wishlist' not in found:
+            found.add('periodic-wishlist')
+            run.add_finding(Finding('periodic-wishlist', bad[0], {'interval': ival, 'items': nitems, 'rounds': rounds}, observed=bad))
+
+
+def periodic_one(ival, nitems, rounds):
+    from aioslsk.settings import WishlistSettingEntry
+    from aioslsk.events import MessageReceivedEvent
+    from aioslsk.protocol.messages import WishlistInterval
+    h = Harness()
+    try:
+        h.settings.searches.wishlist = [WishlistSettingEntry(query=f'w{i}', enabled=True) for i in range(nitems)]
+        h.atomic(h.bus.emit, MessageReceivedEvent(WishlistInterval.Response(ival), h.conn))
+        h.settle()
+        for r in range(rounds):
+            h.loop.run_for(ival)
             h.settle()
-            for r in range(rounds):
-                h.loop.run_for(ival)
-                h.settle()
-            ev = list(h.events)
-            errs = list(h.loop.unhandled)
-            sent = {e[1]: e[2] for e in ev if e[0] == 'sent'}
-            rem = {}
-            for e in ev:
-                if e[0] == 'removed':
-                    rem.setdefault(e[1], []).append(e[2])
-            end = h.t()
-            bad = []
-            if len(sent) != len([e for e in ev if e[0] == 'sent']):
-                bad.append('ticket reused')
-            for tk, t0 in sent.items():
-                if t0 + ival <= end - 1 and rem.get(tk) != [t0 + ival]:
-                    bad.append(f'request {tk} sent at {t0} removed at {rem.get(tk)} (expected once at {t0 + ival})')
-                if tk in rem and any(t < t0 + ival for t in rem[tk]):
-                    bad.append(f'request {tk} removed early')
-            live = set(sent) - set(rem)
-            if set(h.mgr.requests) != live:
-                bad.append(f'requests {sorted(h.mgr.requests)} != {sorted(live)}')
-            if errs:
-                bad.append(f'loop errors: {[type(c.get("exception")).__name__ for c in errs]}')
-            run.case({'periodic': [ival, nitems, rounds]}, kind='periodic-wishlist')
-            if bad and 'periodic-wishlist' not in found:
-                found.add('periodic-wishlist')
-                run.add_finding(Finding('periodic-wishlist', bad[0], {'interval': ival, 'items': nitems, 'rounds': rounds}, observed=bad))
-        finally:
-            try:
-                h.mgr._wishlist_task.cancel()
-            except Exception:
-                pass
-            h.close()
+        ev = list(h.events)
+        errs = list(h.loop.unhandled)
+        sent = {e[1]: e[2] for e in ev if e[0] == 'sent'}
+        rem = {}
+        for e in ev:
+            if e[0] == 'removed':
+                rem.setdefault(e[1], []).append(e[2])
+        end = h.t()
+        bad = []
+        if len(sent) != len([e for e in ev if e[0] == 'sent']):
+            bad.append('ticket reused')
+        for tk, t0 in sent.items():
+            if t0 + ival <= end - 1 and rem.get(tk) != [t0 + ival]:
+                bad.append(f'request {tk} sent at {t0} removed at {rem.get(tk)} (expected once at {t0 + ival})')
+            if tk in rem and any(t < t0 + ival for t in rem[tk]):
+                bad.append(f'request {tk} removed early')
+        live = set(sent) - set(rem)
+        if set(h.mgr.requests) != live:
+            bad.append(f'requests {sorted(h.mgr.requests)} != {sorted(live)}')
+        if errs or any(e[0] in ('errkey', 'other') for e in ev):
+            bad.append(f'errors in tasks: {[e for e in ev if e[0] in ("errkey", "other")]} {[type(c.get("exception")).__name__ for c in errs]}')
+        return bad
+    finally:
+        try:
+            h.mgr._wishlist_task.cancel()
+        except Exception:
+            pass
+        h.close()
 
 
 def replay(rep) -> int:
     wit = rep['witness']
+    if 'ticket_repeat_after' in wit or 'ticket_issue' in wit:
+        from aioslsk.utils import ticket_generator
+        g = ticket_generator()
+        first = next(g)
+        n = wit.get('ticket_repeat_after') or wit.get('ticket_issue')
+        vals = [next(g) for _ in range(n)]
+        bad = vals[-1] == first or not (1 <= vals[-1] <= MAXT)
+        print(f'ticket_generator(): first ticket {first}, ticket after {n} more issues: {vals[-1]}')
+        return 1 if bad else 0
+    if 'interval' in wit:
+        bad = periodic_one(wit['interval'], wit['items'], wit['rounds'])
+        print('periodic wishlist:', bad)
+        return 1 if bad else 0
     if 'ops' not in wit:
         print('witness without an op list:', wit)
         return 1
